@@ -69,16 +69,24 @@ pub fn judge(case: &Value) -> Option<Value> {
     }
     let mut oa = vec![];
     let mut ob = vec![];
+    let mut limited = false;
     for p in &probes {
         let ra = submit(&mut a, p, style);
-        oa.push(obs(&mut a, &ra));
+        let xa = obs(&mut a, &ra);
         let rb = submit(&mut b, p, style);
-        ob.push(obs(&mut b, &rb));
+        let xb = obs(&mut b, &rb);
+        if xa["err"] == "Limit" || xb["err"] == "Limit" {
+            limited = true; // cumulative instruction meter: not judged from here on
+            break;
+        }
+        oa.push(xa);
+        ob.push(xb);
     }
     if case["kind"] == "build" && oa != ob {
         why.push("a follow-up source behaves differently than if the rejected source had never been submitted".into());
     }
     let pred: Vec<Value> = case["with"].as_array().map(|a| a.iter().map(spec_obs).collect()).unwrap_or_default();
+    let pred: Vec<Value> = if limited { pred.into_iter().take(oa.len()).collect() } else { pred };
     if oa != pred && !oa.iter().any(|o| o["err"] == "panic") {
         why.push("follow-up sources do not behave as the design predicts".into());
     }
@@ -189,6 +197,11 @@ pub fn cmd_record(args: &[String]) -> i32 {
             let oa = obs(&mut a, &ra);
             let rb = submit(&mut b, p, style);
             let ob = obs(&mut b, &rb);
+            // the instruction meter is cumulative: a rejected source whose meta blocks ran has used part of the budget,
+            // so a probe that runs into the limit stops elsewhere - resource accounting, not an effect of the rejected text
+            if oa["err"] == "Limit" || ob["err"] == "Limit" {
+                break;
+            }
             trace.push_str(&json!({"run": i * 10 + k + 1, "twin": "A", "o": fnv(&oa.to_string())}).to_string());
             trace.push('\n');
             trace.push_str(&json!({"run": i * 10 + k + 1, "twin": "B", "o": fnv(&ob.to_string())}).to_string());
